@@ -577,13 +577,13 @@ func c11Mod(r *core.Result, fam string, bits int, sess []byte, rejected func(str
 
 // aliceTranscript re-implements ProveRangeAlice with a chosen alpha (the only way to put s1 just above the bound).
 func aliceTranscript(pk *paillier.PublicKey, c, NTilde, h1, h2, m, r, alpha *big.Int) *mta.RangeProofAlice {
-	return aliceTranscriptForced(pk, c, NTilde, h1, h2, m, r, alpha, nil)
+	return aliceTranscriptForced(tss.S256(), pk, c, NTilde, h1, h2, m, r, alpha, nil)
 }
 
 // aliceTranscriptForced: a prover that fixes some of its first-move values (z, u, w) to values of its choosing before the
 // challenge is derived, and answers honestly after that: every equation that does not involve the forced value holds.
-func aliceTranscriptForced(pk *paillier.PublicKey, c, NTilde, h1, h2, m, r, alpha *big.Int, force map[string]*big.Int) *mta.RangeProofAlice {
-	q := secQ
+func aliceTranscriptForced(ec elliptic.Curve, pk *paillier.PublicKey, c, NTilde, h1, h2, m, r, alpha *big.Int, force map[string]*big.Int) *mta.RangeProofAlice {
+	q := ec.Params().N
 	q3 := new(big.Int).Exp(q, big.NewInt(3), nil)
 	beta := common.GetRandomPositiveRelativelyPrimeInt(rand.Reader, pk.N)
 	gamma := common.GetRandomPositiveInt(rand.Reader, new(big.Int).Mul(q3, NTilde))
@@ -644,6 +644,42 @@ func c11Alice(r *core.Result, c core.Case, env *core.Env, rejected func(string, 
 				continue
 			}
 			rejected(fmt.Sprintf("alice: equations hold, s1 = q^3 + %s", hx(new(big.Int).Sub(pf.S1, q3))), func() bool { return pf.Verify(ec, pk, NT, h1, h2, cc) })
+		}
+	}
+	// the same on a second curve, in the same process and after the secp256k1 checks above: the bound is that curve's q^3
+	// (edwards25519's order is about 2^252, so its q^3 is 2^12 times smaller than secp256k1's)
+	{
+		ed := tss.Edwards()
+		qe := ed.Params().N
+		qe3 := new(big.Int).Exp(qe, big.NewInt(3), nil)
+		m := new(big.Int).Sub(qe, big1)
+		cc, rr, _ := pk.EncryptAndReturnRandomness(rand.Reader, m)
+		control("alice on ed25519 (library prover)", func() bool {
+			pf, err := mta.ProveRangeAlice(ed, pk, cc, NT, h1, h2, m, rr, rand.Reader)
+			return err == nil && pf.Verify(ed, pk, NT, h1, h2, cc)
+		})
+		control("alice on ed25519 (transcript builder)", func() bool {
+			return aliceTranscriptForced(ed, pk, cc, NT, h1, h2, m, rr, new(big.Int).Rsh(qe3, 1), nil).Verify(ed, pk, NT, h1, h2, cc)
+		})
+		for _, off := range []int64{0, 1, 1000} {
+			pf := aliceTranscriptForced(ed, pk, cc, NT, h1, h2, m, rr, new(big.Int).Sub(qe3, big.NewInt(off)), nil)
+			if pf.S1.Cmp(qe3) <= 0 {
+				continue
+			}
+			rejected(fmt.Sprintf("alice on ed25519 after secp256k1: equations hold, s1 = q^3 + %s", hx(new(big.Int).Sub(pf.S1, qe3))), func() bool { return pf.Verify(ed, pk, NT, h1, h2, cc) })
+		}
+		// and a multiplier just above q^3 in Bob's proof on that curve
+		xb := new(big.Int).Add(qe3, big1)
+		if cy, ry, err := pk.EncryptAndReturnRandomness(rand.Reader, big.NewInt(5)); err == nil {
+			c1, _ := pk.Encrypt(rand.Reader, big.NewInt(9))
+			if c2, err := pk.HomoMult(xb, c1); err == nil {
+				if c2, err = pk.HomoAdd(c2, cy); err == nil {
+					rejected("bob on ed25519 after secp256k1: x = q^3+1", func() bool {
+						pf, err := mta.ProveBob([]byte("s"), ed, pk, NT, h1, h2, c1, c2, xb, big.NewInt(5), ry, rand.Reader)
+						return err == nil && pf.Verify([]byte("s"), ed, pk, NT, h1, h2, c1, c2)
+					})
+				}
+			}
 		}
 	}
 	for what, m := range map[string]*big.Int{
